@@ -3,10 +3,10 @@
 From Coq Require Import String.
 From TT Require Import Lib.Base Lib.Sort Model.Utf8 Model.MimeCt Gen.Ctc16 Model.Content Spec.C16.
 
-Definition w_init (data : list N) (pos : nat) : world := {| w_data := data; w_pos := pos; w_reads := 0 |}.
+Definition w_init (data : list N) (pos : nat) : world := {| w_data := data; w_pos := pos; w_reads := 0; w_heap := [] |}.
 (* the harness overwrites the source between creation and iteration (its own accesses are not counted) *)
 Definition set_source (w : world) (data : list N) (pos : nat) : world :=
-  {| w_data := data; w_pos := pos; w_reads := w_reads w |}.
+  {| w_data := data; w_pos := pos; w_reads := w_reads w; w_heap := w_heap w |}.
 Definition w0 : world := w_init [] 0.    (* scenarios without a mutable source *)
 
 Definition joined (r : res (list chunk) exn) : list N := match r with Ok cs => concat cs | Raised _ => [] end.
@@ -53,6 +53,23 @@ Definition model_snap (r : reader_in) : obs :=
       end
   end.
 
+(* the harness mutates the source list (location 0) after the copy was made *)
+Definition mutate (w : world) (l : loc) (v : list chunk) : world :=
+  {| w_data := w_data w; w_pos := w_pos w; w_reads := w_reads w; w_heap := heap_set l v (w_heap w) |}.
+
+Definition model_snaplist (r : snaplist_in) : obs :=
+  let wa := {| w_data := []; w_pos := 0; w_reads := 0; w_heap := [sl_buf r] |} in
+  let c := {| c_type := UTF8_TEXT; c_src := if sl_tuple r then Stored (sl_buf r) else InList 0 |} in
+  match copy_content c wa with
+  | (Raised e, _) => OSnapList false (Raised e) (Raised e) (Raised e)          (* cannot happen *)
+  | (Ok cp, wb) =>
+      let wc := mutate wb 0 (apply_ops (sl_ops r) (sl_buf r)) in
+      let (c1, wd) := iter_bytes cp wc in
+      let (c2, we) := iter_bytes cp wd in
+      let (og, _) := iter_bytes c we in
+      OSnapList (ct_eqb (c_type cp) (c_type c)) c1 c2 og
+  end.
+
 Definition model (i : input) : obs :=
   match i with
   | IText s =>
@@ -69,6 +86,7 @@ Definition model (i : input) : obs :=
                                  (all_splits data)))
   | IReader r => model_reader r
   | ISnap r => model_snap r
+  | ISnapList r => model_snaplist r
   | IEq ta ca tb cb =>
       let a := {| c_type := ta; c_src := Stored ca |} in
       let b := {| c_type := tb; c_src := Stored cb |} in
@@ -106,6 +124,8 @@ Definition obs_eqb (a b : obs) : bool :=
   | OSnap c1 s1 i1 j1 a1 g1, OSnap c2 s2 i2 j2 a2 g2 =>
       option_eqb exn_eqb c1 c2 && Bool.eqb s1 s2 && bres_eqb i1 i2 && bres_eqb j1 j2
       && Bool.eqb a1 a2 && bres_eqb g1 g2
+  | OSnapList s1 i1 j1 g1, OSnapList s2 i2 j2 g2 =>
+      Bool.eqb s1 s2 && bres_eqb i1 i2 && bres_eqb j1 j2 && bres_eqb g1 g2
   | OEq e1 n1, OEq e2 n2 => Bool.eqb e1 e2 && Bool.eqb n1 n2
   | OMime c1 r1, OMime c2 r2 => ctype_eqb c1 c2 && Bool.eqb (survives c1 r1) (survives c2 r2)
   | _, _ => false
@@ -124,6 +144,7 @@ Inductive aobs :=
 | ASplits (runs : list (tres * nat))
 | AReader (created : option exn) (rc : bool) (it1 : ab) (r1 : bool) (it2 : ab) (r2 : bool)
 | ASnap (copied : option exn) (same : bool) (c1 c2 : ab) (ra : bool) (orig : ab)
+| ASnapList (same : bool) (c1 c2 orig : ab)
 | AEq (eq ne : bool)
 | AMime (echo : ctype) (survived : bool).
 
@@ -135,6 +156,7 @@ Definition alpha (o : obs) : aobs :=
   | OSplits r => ASplits r
   | OReader c a i x j y => AReader c a (alpha_b i) x (alpha_b j) y
   | OSnap c s i j a g => ASnap c s (alpha_b i) (alpha_b j) a (alpha_b g)
+  | OSnapList s i j g => ASnapList s (alpha_b i) (alpha_b j) (alpha_b g)
   | OEq e n => AEq e n
   | OMime c r => AMime c (survives c r)
   end.
